@@ -13,7 +13,7 @@ SPEC = {
     "lean_modules": ["TrustVerif.Props.C08"],
     "tiers": {
         "quick": {"cases": 600},
-        "thorough": {"cases": 20000},
+        "thorough": {"cases": 15000},
     },
     # the compared observables (returned error, faulted / last_fault, statement counter and program
     # activations, merged order of driver calls with the images they received and the Fault event,
